@@ -83,3 +83,51 @@ Print Assumptions C12_size_hint_sound.
 Print Assumptions C12_size_hint_countdown.
 Print Assumptions C12_example_size_hint.
 Print Assumptions C12_example.
+
+(* ------------------------------------------------------------------------------------------
+   After save and reload (composition with C01_full; proofs in Proofs/ComposeReload.v).
+   [savable], [known_deep], [small_file] are C01's domain (Spec/SaveSpec.v), [load] / [save] the models of
+   Reader::read / Document::save_to C01_full is about.  The section imports are local to it.
+   ------------------------------------------------------------------------------------------ *)
+From LV Require Model.Save Model.Xref Model.Loader Spec.SaveSpec Proofs.ComposeReload.
+Section AfterSaveAndReload.
+  Import Model.Save Model.Xref Model.Loader Spec.SaveSpec Proofs.ComposeReload.
+
+  (* (6) cross-reference TABLE format, EVERY document of C01's domain -- cyclic, ill-typed and dangling page trees
+     included: the file save writes loads to a document with the same page enumeration.  (The reloaded objects are
+     the saved ones up to a real becoming an integer; the iterator reads references, Type names and Kids arrays,
+     never Count, and objects.len() is unchanged.) *)
+  Theorem C12_after_save_load_table :
+    forall d, savable d -> known_deep d = false -> small_file XTable d ->
+      exists d', load (so_bytes (save XTable d)) = LOk d' XTTable /\
+                 page_iter d' = page_iter d /\ get_pages d' = get_pages d.
+  Proof. exact c12_after_save_load_table. Qed.
+
+  (* (7) either format, page trees meeting the hypotheses of (1): still exactly the depth-first leaves *)
+  Theorem C12_after_save_load :
+    forall xt d cat i g ks,
+      savable d -> known_deep d = false -> small_file xt d ->
+      catalog d = Some cat ->
+      dict_get cat K_Pages = Some (ORef i g) ->
+      tree_wf d (PNode (i, g) ks) ->
+      (N.of_nat (height (PNode (i, g) ks)) <= PAGE_TREE_DEPTH_LIMIT + 1)%N ->
+      exists d', load (so_bytes (save xt d)) = LOk d' (xtype_of xt) /\
+                 page_iter d' = leaves (PNode (i, g) ks) /\ page_iter d' = page_iter d /\ get_pages d' = get_pages d.
+  Proof. exact c12_after_save_load. Qed.
+
+  (* (8) why (7) has the hypotheses of (1) in the cross-reference STREAM format: the loader keeps the cross-reference
+     stream as an object, so objects.len() -- the iterator's budget -- is one larger after the reload; on a cyclic tree
+     (node 2 lists page 3 and itself) the walk stops when the budget is used up and so yields the page once more.
+     Both enumerations terminate and yield only pages, as the property demands of malformed trees. *)
+  Theorem C12_stream_reload_budget_witness :
+    savable cyc_doc /\ known_deep cyc_doc = false /\ small_file XStream cyc_doc /\ cycles_fit XStream cyc_doc /\
+    load (so_bytes (save XStream cyc_doc)) = LOk (reloaded XStream cyc_doc) XTStream /\
+    page_iter cyc_doc = [(3, 0); (3, 0)]%N /\
+    page_iter (reloaded XStream cyc_doc) = [(3, 0); (3, 0); (3, 0)]%N /\
+    page_iter (reloaded XTable cyc_doc) = [(3, 0); (3, 0)]%N.
+  Proof. exact stream_cyclic_witness. Qed.
+End AfterSaveAndReload.
+
+Print Assumptions C12_after_save_load_table.
+Print Assumptions C12_after_save_load.
+Print Assumptions C12_stream_reload_budget_witness.
